@@ -6,7 +6,8 @@ Import ListNotations.
 Open Scope nat_scope.
 
 (* grid 0: 5 x 4 samples, align_corners=True; grid 1: the same samples with align_corners=False
-   (equal to grid 0 under Grid.__eq__); grid 2: a different lattice on the same domain *)
+   (equal to grid 0 under Grid.__eq__, but not under the test of SpatialTransform.grid_, which also
+   compares align_corners); grid 2: a different lattice on the same domain *)
 Definition x_ext (g : nat) : list Qc := nth g [[Q2Qc 4%Q; Q2Qc 3%Q]; [Q2Qc 5%Q; Q2Qc 4%Q]; [Q2Qc 4%Q; Q2Qc 3%Q]] [].
 Definition x_dshape (k : kind) (g : nat) : option (list nat) :=
   match k with
@@ -16,10 +17,10 @@ Definition x_dshape (k : kind) (g : nat) : option (list nat) :=
   | _ => nth g [Some [2; 4; 5]; Some [2; 4; 5]; Some [2; 7; 9]] None
   end.
 Definition x_gshape (g : nat) : list nat := nth g [[4; 5]; [4; 5]; [7; 9]] [].
-Definition x_geq (a b : nat) : bool := Nat.eqb a b || (Nat.leb a 1 && Nat.leb b 1).
+Definition x_geq (a b : nat) : bool := Nat.eqb a b.
 Definition x_same (a b : nat) : bool := true.
 Definition x_align (g : nat) : bool := negb (Nat.eqb g 1).
-Definition x_ffdsub (a b : nat) : option bool := if Nat.eqb a b then Some false else None.
+Definition x_ffdsub (a b : nat) : option bool := if Nat.eqb a b then Some false else if Nat.eqb b 1 then None else Some true.
 
 Definition x_step := rstep x_ext x_dshape x_geq x_same x_align x_ffdsub.
 Definition x_run (cf : cfg) (h : list rop) : rstate :=
